@@ -83,6 +83,15 @@ def make_case(rng: random.Random, *, funcs=None, chunked=None, dtypes=None, stre
         c = Case(func=func, dtype=dtype, vals=vals, labels=labels, expected=exp, sort=rng.choice(sorts), fill=fill,
                  min_count=mc, ddof=rng.choice([0, 0, 1]), engine=rng.choice(engines or ENGINES), stream=stream)
         c.expected_kind = rng.choice(["array", "array", "list", "index"])
+        if exp is not None and dtype != "bool" and rng.random() < 0.15:
+            # expected_groups as a pandas.RangeIndex: any start / step / direction (its members are labels, not positions)
+            start, step, k = rng.choice([0, 0, 1, -2, 2, 4]), rng.choice([1, 1, 2, -1, -2, 3]), rng.randint(1, 5)
+            c.expected = [start + j * step for j in range(k)]
+            c.expected_kind = "range"
+            if c.fill is None:
+                c.fill = rng.choice([NAN, 0, -7]) if func not in ARG else -7
+                if func in ("any", "all"):
+                    c.fill = rng.choice([0, 1])
         is_chunked = rng.random() < 0.5 if chunked is None else chunked
         if is_chunked:
             c.method = rng.choice(methods)
@@ -396,7 +405,7 @@ class C16(ReduceProp):
 class C20(ReduceProp):
     id = "C20"
     lean_module = "FloxProps.C20"
-    rule = ("three streams: (a) min/max/nanmin/nanmax on float data mixing finite values, NaN and +-inf on every engine and plan; "
+    rule = ("three streams: (a) min/max/nanmin/nanmax on float data mixing finite values, NaN and +-inf (incl. groups whose only valid values are infinities of one sign next to NaN) on every engine and plan; "
             "(b) sum/nansum/prod/nanprod/count/mean on int8/uint8/int16 data whose group totals exceed the input width but not "
             "int64; (c) var/std/nanvar/nanstd on well-conditioned data (multiples of 1/8, |x| <= 100), compared with NumPy and "
             "between eager and chunked evaluation (rel. 1e-9); distinct = hash of the case")
@@ -407,8 +416,15 @@ class C20(ReduceProp):
         stream = i % 3
         for _ in range(100):
             if stream == 0:
-                c = make_case(rng, funcs=["min", "max", "nanmin", "nanmax"], dtypes=["float64", "float32"],
-                              streams=["inf", "mixed"], nmax=12, mcs=(None,))
+                if (i // 3) % 3 == 2:
+                    # sentinel stress: nan-skipping extremes of groups holding only NaN and infinities of one sign, mostly
+                    # in memory (the eager engines substitute +-inf for NaN and must tell the substitute from real data)
+                    c = make_case(rng, funcs=["nanmin", "nanmax", "nanmin", "nanmax", "min", "max"], dtypes=["float64", "float32"],
+                                  streams=["infnan"], nmax=12, mcs=(None,), chunked=rng.random() < 0.35,
+                                  engines=["flox", "flox", None, "numpy", "numbagg"])
+                else:
+                    c = make_case(rng, funcs=["min", "max", "nanmin", "nanmax"], dtypes=["float64", "float32"],
+                                  streams=["inf", "mixed", "infnan"], nmax=12, mcs=(None,))
             elif stream == 1:
                 c = make_case(rng, funcs=["sum", "nansum", "prod", "nanprod", "mean", "nanmean", "count"],
                               dtypes=["int8", "uint8", "int16"], nmax=40, mcs=(None,), fills=(None, None, 0, -7))
